@@ -10,11 +10,18 @@
    The production set and the naming are those of the model of emerge's symbol table
    (Emerge/SpecModel.v), which the correspondence compares with spec.Parse on generated specifications;
    [spec_pure_ok] is evaluated by the kernel for each of them.
+   UNIVERSAL TOO (Emerge/SpecMemo.v, Emerge/SpecSigma.v): the model COMPUTES the specified translation.  The memo's
+   keys are compared as multisets ([key_eqb] is multiset equality, an equivalence), entries have pairwise different keys,
+   a name once assigned is never changed or lost; hence, under the naming the memo ends up with, the alternatives
+   computed for a right-hand side are [sigma] of it and the production set is exactly [P_pure] - for every declaration
+   list, no premise.  So the only premise left of the language theorem is that NAMES are well chosen ([names_ok], the
+   first two conjuncts of [pure_ok]): [emerge_translation_preserves_language].
    KNOWN FINDING D2: when the premise fails (a user name coincides with a synthesised one, or two
    different bodies synthesise the same name, e.g. {"+"} and {plus}), the language is NOT preserved:
    see [name_collision_refuted]. *)
 From Coq Require Import String List Bool NArith.
-From Verif Require Import Cfg.Ebnf Cfg.Translate Emerge.SpecModel Emerge.Pipeline.
+From Verif Require Import Cfg.Ebnf Cfg.Translate Emerge.SpecModel Emerge.SpecSigma Emerge.Pipeline.
+From VerifGen Require Import RuneGo.
 Import ListNotations.
 
 Theorem translation_preserves_language :
@@ -31,6 +38,33 @@ Corollary model_preserves_language :
 Proof. intros ds H. unfold spec_pure_ok in H. exact (pure_ok_sound _ _ _ H). Qed.
 Print Assumptions model_preserves_language.
 
+(* the production set of the model IS the specified one, under the naming the memo ends up with: every declaration list *)
+Theorem model_production_set_is_the_specified_one :
+  forall ds p, In p (s_prods (translate_spec ds)) <-> In p (P_pure (rules_of_decls ds) (spec_nu ds)).
+Proof. intros ds p. exact (production_set_is_the_specified_one terminal_names predefs_s ds p). Qed.
+Print Assumptions model_production_set_is_the_specified_one.
+
+(* names are well chosen: synthesised names are not names the user mentions, and equal synthesised names stand for the same
+   kind and the same set of alternatives (exactly the first two conjuncts of [pure_ok]) *)
+Definition names_ok (rules : list rule) (nu : strings -> kind -> string) : bool :=
+  forallb (fun kx => negb (existsb (String.eqb (name_of nu kx)) (mentioned_list rules))) (brackets rules)
+  && forallb (fun kx => forallb (fun kx' =>
+               if String.eqb (name_of nu kx) (name_of nu kx')
+               then kind_eqb (fst kx) (fst kx') && seteqb (sigma nu (snd kx)) (sigma nu (snd kx'))
+               else true) (brackets rules)) (brackets rules).
+
+Theorem emerge_translation_preserves_language :
+  forall ds, names_ok (rules_of_decls ds) (spec_nu ds) = true ->
+    forall A w, In A (map fst (rules_of_decls ds)) ->
+      (derives (s_prods (translate_spec ds)) (SN A) w <-> em (rules_of_decls ds) (ENT A) w).
+Proof.
+  intros ds Hn. apply (pure_ok_sound (rules_of_decls ds) (spec_nu ds) (s_prods (translate_spec ds))). unfold pure_ok. unfold names_ok in Hn. rewrite Hn. simpl.
+  apply andb_true_iff. split; apply forallb_forall; intros p Hp; apply pmem_spec.
+  - apply (model_production_set_is_the_specified_one ds p). exact Hp.
+  - apply (model_production_set_is_the_specified_one ds p). exact Hp.
+Qed.
+Print Assumptions emerge_translation_preserves_language.
+
 Fixpoint cp (s : string) : list N :=
   match s with EmptyString => [] | String a t => Ascii.N_of_ascii a :: cp t end.
 Local Open Scope string_scope.
@@ -38,7 +72,7 @@ Local Open Scope string_scope.
 (* the premise is satisfiable: every operator, nested, repeated on the same sub-expression *)
 Example premise_holds_somewhere :
   match front (cp "grammar g; start = {a ""+""} [a] (b | c |) {{a ""+""}} [{a}] ({a}); a = ""x"" {{a}}; b = ""y""; c = ;") with
-  | FSpec _ ds => spec_pure_ok ds
+  | FSpec _ ds => spec_pure_ok ds && names_ok (rules_of_decls ds) (spec_nu ds)
   | _ => false
   end = true.
 Proof. vm_compute. reflexivity. Qed.
